@@ -56,7 +56,7 @@ Print Assumptions C05_chain_start.
    theories/Model_Quadrature.v (the PrimFloat instance of the same definitions is run bit for bit against the real
    methods on every run); theorems over R. *)
 From Coq Require Import Reals.
-From HT Require Import Field Model_Quadrature Proof_Quadrature Model_Equalise Proof_Equalise.
+From HT Require Import Field Model_Quadrature Proof_Quadrature Model_Stencil Model_Equalise Proof_Equalise Proof_EqualiseR.
 Local Open Scope R_scope.
 
 (* calcDistance returns the length of the polygon through the fine points: one entry per point, 0 at the first, and each
@@ -155,9 +155,19 @@ Theorem C05_equal_spacing_keeps_the_ends : forall {T} (O : ops T) refine atol da
   nth ei (fst (equalise O refine atol damping maxits nfine el si ei pos)) d = nth ei pos d.
 Proof. intros. apply equalise_keeps_ends; assumption. Qed.
 
+(* what that tolerance test means over the reals (numpy's pairwise summation IS the sum there): every spacing of an accepted fine
+   contour is within finecontour_atol of the mean spacing, so any two spacings differ by at most twice that *)
+Theorem C05_accepted_spacing_is_equal_to_tolerance : forall (dist : list R) atol, olt Rops atol (ds_error Rops dist) = false ->
+  forall d, In d (diffs Rops dist) -> Rabs (d - mean (diffs Rops dist)) <= atol.
+Proof. exact ds_error_bounds_every_spacing. Qed.
+
+Theorem C05_numpy_pairwise_sum_is_the_sum : forall fuel (l : list R), pairwise_sum Rops fuel l = rsum l.
+Proof. exact pairwise_sum_rsum. Qed.
+
 Print Assumptions C05_distance_is_polygon_length.
 Print Assumptions C05_distance_bounds_chord.
 Print Assumptions C05_reverse_keeps_distance.
 Print Assumptions C05_point_distance_at_fine_point.
 Print Assumptions C05_placed_point_on_polygon.
 Print Assumptions C05_equal_spacing_keeps_the_ends.
+Print Assumptions C05_accepted_spacing_is_equal_to_tolerance.
